@@ -17,6 +17,11 @@ use std::collections::BTreeMap;
 
 pub const CAPS: [usize; 9] = [0, 1, 2, 3, 4, 7, 8, 16, 33];
 pub const RT: u8 = 9; // serialize -> deserialize
+pub const CL: u8 = 10; // g = g.clone()
+/// CF + i: g.clone_from(&new(CF_CAPS[i], parties)) - the object takes over another object's contents
+pub const CF: u8 = 11;
+pub const CF_CAPS: [usize; 4] = [0, 2, 8, 33];
+pub const LAST_ACTION: u8 = CF + 3;
 pub const PREFIXES: [usize; 8] = [1, 2, 8, 33, 64, 512, 1024, 4096];
 
 pub struct GensMachine {
@@ -31,7 +36,7 @@ impl Model for GensMachine {
     }
     fn actions(&self, s: &Vec<u8>, a: &mut Vec<u8>) {
         if s.len() < self.depth {
-            a.extend(0..=RT);
+            a.extend(0..=LAST_ACTION);
         }
     }
     fn next_state(&self, s: &Vec<u8>, a: u8) -> Option<Vec<u8>> {
@@ -43,11 +48,15 @@ impl Model for GensMachine {
         vec![
             // model-level invariant: the abstract capacity is the maximum requested so far
             Property::always("abstract capacity is monotone", |_, s: &Vec<u8>| {
+                // between two clone_from actions the capacity never decreases
                 let mut cap = 0usize;
                 for a in s {
                     let before = cap;
-                    if *a != RT {
+                    if *a < RT {
                         cap = cap.max(CAPS[*a as usize]);
+                    } else if *a >= CF {
+                        cap = CF_CAPS[(*a - CF) as usize];
+                        continue;
                     }
                     if cap < before {
                         return false;
@@ -55,19 +64,39 @@ impl Model for GensMachine {
                 }
                 cap == abstract_cap(s)
             }),
-            Property::sometimes("a round trip followed by an increase is reached", |_, s: &Vec<u8>| s.windows(2).any(|w| w[0] == RT && w[1] != RT)),
+            Property::sometimes("a round trip followed by an increase is reached", |_, s: &Vec<u8>| s.windows(2).any(|w| w[0] == RT && w[1] < RT)),
             Property::sometimes("impossible (keeps the search going)", |_, _| false),
         ]
     }
 }
 
 pub fn abstract_cap(h: &[u8]) -> usize {
-    h.iter().filter(|a| **a != RT).map(|a| CAPS[*a as usize]).max().unwrap_or(0)
+    let mut cap = 0usize;
+    for a in h {
+        if *a < RT {
+            cap = cap.max(CAPS[*a as usize]);
+        } else if *a >= CF {
+            cap = CF_CAPS[(*a - CF) as usize];
+        }
+    }
+    cap
 }
 pub fn hist_name(h: &[u8]) -> String {
     h.iter()
         .enumerate()
-        .map(|(i, a)| if *a == RT { "roundtrip".to_string() } else if i == 0 { format!("new({})", CAPS[*a as usize]) } else { format!("inc({})", CAPS[*a as usize]) })
+        .map(|(i, a)| {
+            if *a == RT {
+                "roundtrip".to_string()
+            } else if *a == CL {
+                "clone".to_string()
+            } else if *a >= CF {
+                format!("clone_from(new({}))", CF_CAPS[(*a - CF) as usize])
+            } else if i == 0 {
+                format!("new({})", CAPS[*a as usize])
+            } else {
+                format!("inc({})", CAPS[*a as usize])
+            }
+        })
         .collect::<Vec<_>>()
         .join(" ")
 }
@@ -76,6 +105,11 @@ pub fn parse_hist(s: &str) -> Vec<u8> {
         .map(|t| {
             if t == "roundtrip" {
                 RT
+            } else if t == "clone" {
+                CL
+            } else if let Some(x) = t.strip_prefix("clone_from(new(") {
+                let n: usize = x.trim_end_matches(')').parse().unwrap();
+                CF + CF_CAPS.iter().position(|c| *c == n).unwrap() as u8
             } else {
                 let n: usize = t.trim_start_matches("new(").trim_start_matches("inc(").trim_end_matches(')').parse().unwrap();
                 CAPS.iter().position(|c| *c == n).unwrap() as u8
@@ -91,6 +125,13 @@ fn materialise<G: Cv>(h: &[u8], parties: usize) -> Result<BulletproofGens<G>, St
             let mut bytes = vec![];
             g.serialize_compressed(&mut bytes).map_err(|e| format!("serialize: {:?}", e))?;
             g = BulletproofGens::<G>::deserialize_compressed(&bytes[..]).map_err(|e| format!("deserialize: {:?}", e))?;
+        } else if *a == CL {
+            #[allow(clippy::redundant_clone)]
+            let c = g.clone();
+            g = c;
+        } else if *a >= CF {
+            let src = BulletproofGens::<G>::new(CF_CAPS[(*a - CF) as usize], parties);
+            g.clone_from(&src);
         } else {
             g.increase_capacity(CAPS[*a as usize]);
         }
@@ -466,7 +507,7 @@ pub fn main(o: &Opts) -> i32 {
         let v: Value = serde_json::from_str(&std::fs::read_to_string(path).unwrap()).unwrap();
         println!("replay of C12 cases re-runs the quick check; case was: {}", v["case"]);
     }
-    rep.bounds = json!({"actions": ["new(c)/inc(c) for c in {0,1,2,3,4,7,8,16,33}", "serialize->deserialize"], "serialized_form": "every state's bytes equal the reference layout rebuilt from a direct construction; 8 objects per curve recorded from the pinned revision compared byte for byte and decoded", "history_depth": depth, "parties": [1, 2, 3], "views": "(n,m) in [0,cap] x [0,parties], G and H", "large_instance": {"cap": big, "parties": 4}, "many_parties_instance": {"cap": 2, "parties": if o.tier == Tier::Quick { MANY_QUICK } else { MANY_THOROUGH }}});
+    rep.bounds = json!({"actions": ["new(c)/inc(c) for c in {0,1,2,3,4,7,8,16,33}", "serialize->deserialize", "clone", "clone_from(new(c)) for c in {0,2,8,33}"], "serialized_form": "every state's bytes equal the reference layout rebuilt from a direct construction; 8 objects per curve recorded from the pinned revision compared byte for byte and decoded", "history_depth": depth, "parties": [1, 2, 3], "views": "(n,m) in [0,cap] x [0,parties], G and H", "large_instance": {"cap": big, "parties": 4}, "many_parties_instance": {"cap": 2, "parties": if o.tier == Tier::Quick { MANY_QUICK } else { MANY_THOROUGH }}});
     rep.curves = CURVES.iter().map(|s| s.to_string()).collect();
     // stateright: enumerate the history machine once (it is curve independent)
     let m = GensMachine { depth };
@@ -551,7 +592,7 @@ pub fn main(o: &Opts) -> i32 {
     rep.traces_validated = Some(replayed);
     rep.nontrivial = replayed;
     rep.exhaustive = skipped == 0;
-    rep.rule = "stateright BFS over capacity histories (first action = new(c, parties), then increase_capacity(c) / serialize->deserialize); every history is replayed on a real BulletproofGens for parties 1..3 and each curve, and compared view by view with a directly constructed object; content checks ([r]P = O, non-identity, pairwise distinct, SHA3 digests pinned from the reference revision) once per (capacity, parties) and on a large instance".into();
+    rep.rule = "stateright BFS over capacity histories (first action = new(c, parties), then increase_capacity(c) / serialize->deserialize / clone / clone_from(new(c))); every history is replayed on a real BulletproofGens for parties 1..3 and each curve, and compared view by view with a directly constructed object; content checks ([r]P = O, non-identity, pairwise distinct, SHA3 digests pinned from the reference revision) once per (capacity, parties) and on a large instance".into();
     rep.explanation = "model states are histories; traces_validated_against_impl counts (history, parties, curve) replays on the implementation".into();
     for h in pick(&hists) {
         rep.sample(json!({"history": hist_name(&h)}));
